@@ -70,6 +70,8 @@ def cases(tier, seed):
     for spec in mutation_specs(28, tier, stride_big=4):
         if spec["m"] == "dup":
             continue
+        if spec["m"] == "window" and spec["w"] > 2 and spec["pos"] >= 24:
+            continue
         spec = dict(spec)
         spec["pos"] += off
         out.append({"h": "H03b", "dgram": "pair2", "variant": 2, "_w": 3, **spec})
